@@ -635,62 +635,11 @@ func c01TypeSelection(w *World, r *Report) {
 		return true
 	})
 	r.Check(okRel, "R01.2", "popCompareRelationalAndPush default arm", rfd.Pos(), "numFn(left, right)", "non-node-set operands of a relational operator are not compared as numbers in (left,right) order")
-	// --- compareNodesetsAndPush: empty set ⇒ false, before any comparator
-	cns := w.Method("xpath", "context", "compareNodesetsAndPush")
-	cfd, cp := w.FuncDecl(cns)
-	nEmpty := 0
+	// --- compareNodesetsAndPush: empty set ⇒ false, before any comparator; operand order
+	c01NodesetGuards(w, r)
 	newBool := w.Func("xpath", "NewBoolDatum")
-	for _, s := range cfd.Body.List {
-		is, ok := s.(*ast.IfStmt)
-		if !ok {
-			continue
-		}
-		ast.Inspect(is.Body, func(n ast.Node) bool {
-			inner, ok := n.(*ast.IfStmt)
-			if !ok {
-				return true
-			}
-			be, ok := ast.Unparen(inner.Cond).(*ast.BinaryExpr)
-			if !ok || be.Op != token.EQL {
-				return true
-			}
-			if v, ok := ConstInt(cp, be.Y); !ok || v != 0 {
-				return true
-			}
-			pushesFalse := false
-			for _, ce := range callsTo(cp, inner.Body, newBool) {
-				if v := ConstOf(cp, ce.Args[0]); v != nil && !constant.BoolVal(v) {
-					pushesFalse = true
-				}
-			}
-			if pushesFalse && len(returnsIn(inner.Body)) == 1 {
-				nEmpty++
-			}
-			return true
-		})
-	}
-	r.Check(nEmpty == 2, "R01.2", "compareNodesetsAndPush empty-set rule", cfd.Pos(), "both operands: empty ⇒ push false, return", fmt.Sprintf("only %d of the 2 operands short-circuit an empty node-set to false (an absent node must be false in every comparison, even !=)", nEmpty))
-	// operand order to compareAndPushNodesets and compareWorker
 	capn := w.Method("xpath", "context", "compareAndPushNodesets")
 	cw := w.Method("xpath", "context", "compareWorker")
-	c2 := allCallsTo(cp, cfd.Body, capn)
-	okOrder := len(c2) == 1
-	if okOrder {
-		// set1 derives from op1 (param 4), set2 from op2 (param 5): check by the composite literal initialisers
-		okOrder = false
-		for _, s := range cfd.Body.List {
-			if as, ok := s.(*ast.AssignStmt); ok && len(as.Lhs) == 2 && len(as.Rhs) == 2 {
-				a, aok := as.Rhs[0].(*ast.CompositeLit)
-				b, bok := as.Rhs[1].(*ast.CompositeLit)
-				if aok && bok && len(a.Elts) == 1 && len(b.Elts) == 1 &&
-					objOfIdent(cp, a.Elts[0]) == paramObj(cp, cfd, 4) && objOfIdent(cp, b.Elts[0]) == paramObj(cp, cfd, 5) &&
-					objOfIdent(cp, c2[0].Args[0]) == objOfIdent(cp, as.Lhs[0]) && objOfIdent(cp, c2[0].Args[1]) == objOfIdent(cp, as.Lhs[1]) {
-					okOrder = true
-				}
-			}
-		}
-	}
-	r.Check(okOrder, "R01.2", "compareNodesetsAndPush operand order", cfd.Pos(), "(set of left, set of right)", "left and right operand sets are exchanged on the way to the comparator")
 	afd, ap := w.FuncDecl(capn)
 	okW := true
 	nW := 0
@@ -732,134 +681,7 @@ func c01TypeSelection(w *World, r *Report) {
 }
 
 func c01Conversions(w *World, r *Report) {
-	// numDatum.Boolean : truth table over {neg, zero, pos, NaN}
-	{
-		m := w.Method("xpath", "numDatum", "Boolean")
-		fd, p := w.FuncDecl(m)
-		numField := w.Field("xpath", "numDatum", "num")
-		env := func(e ast.Expr) string {
-			if fieldOfSel(p, e) == numField {
-				return "L"
-			}
-			if v := ConstOf(p, e); v != nil && constant.Sign(v) == 0 && (v.Kind() == constant.Int || v.Kind() == constant.Float) {
-				return "R"
-			}
-			return ""
-		}
-		res, ok := evalBoolFunc(p, fd, env, []ordCase{ordLT, ordEQ, ordGT, ordNaNL})
-		want := []bool{true, false, true, false}
-		good := ok
-		for i := range want {
-			if ok && res[i] != want[i] {
-				good = false
-			}
-		}
-		r.Check(good, "R01.3", "numDatum.Boolean", fd.Pos(), "false exactly for ±0 and NaN",
-			fmt.Sprintf("boolean(number) over (negative, zero, positive, NaN) = %v (decided=%v); XPath §4.3: false iff zero or NaN → [true false true false]", res, ok))
-	}
-	// litDatum.Boolean
-	{
-		m := w.Method("xpath", "litDatum", "Boolean")
-		fd, p := w.FuncDecl(m)
-		litField := w.Field("xpath", "litDatum", "lit")
-		e := (ast.Expr)(nil)
-		if rets := returnsIn(fd.Body); len(rets) == 1 {
-			e = ast.Unparen(rets[0].Results[0])
-		}
-		ok := false
-		if be, isB := e.(*ast.BinaryExpr); isB {
-			if ce, isC := ast.Unparen(be.X).(*ast.CallExpr); isC && len(ce.Args) == 1 && fieldOfSel(p, ce.Args[0]) == litField {
-				if v, isK := ConstInt(p, be.Y); isK && v == 0 && (be.Op == token.GTR || be.Op == token.NEQ) {
-					ok = true
-				}
-			}
-			if fieldOfSel(p, be.X) == litField && be.Op == token.NEQ {
-				if v, isS := ConstStr(p, be.Y); isS && v == "" {
-					ok = true
-				}
-			}
-		}
-		r.Check(ok, "R01.3", "litDatum.Boolean", fd.Pos(), "len(lit) > 0", "boolean(string) is not 'length non-zero'")
-	}
-	// boolDatum.Number / Literal : constant returns under the true test
-	for _, c := range []struct {
-		meth     string
-		t, f     constant.Value
-		descr    string
-	}{
-		{"Number", constant.MakeInt64(1), constant.MakeInt64(0), "true→1, false→0"},
-		{"Literal", constant.MakeString("true"), constant.MakeString("false"), "true→\"true\", false→\"false\""},
-	} {
-		m := w.Method("xpath", "boolDatum", c.meth)
-		fd, p := w.FuncDecl(m)
-		bf := w.Field("xpath", "boolDatum", "boolVal")
-		ok := false
-		if len(fd.Body.List) == 2 {
-			if is, isIf := fd.Body.List[0].(*ast.IfStmt); isIf {
-				pos := false
-				cond := ast.Unparen(is.Cond)
-				if fieldOfSel(p, cond) == bf {
-					pos = true
-				}
-				if be, isB := cond.(*ast.BinaryExpr); isB && be.Op == token.EQL && fieldOfSel(p, be.X) == bf {
-					if v := ConstOf(p, be.Y); v != nil && v.Kind() == constant.Bool && constant.BoolVal(v) {
-						pos = true
-					}
-				}
-				r1 := returnsIn(is.Body)
-				r2, isRet := fd.Body.List[1].(*ast.ReturnStmt)
-				if pos && len(r1) == 1 && isRet {
-					a, b := ConstOf(p, r1[0].Results[0]), ConstOf(p, r2.Results[0])
-					if a != nil && b != nil && constant.Compare(constant.ToFloat(a), token.EQL, constant.ToFloat(c.t)) == (c.t.Kind() != constant.String) && c.t.Kind() != constant.String {
-						ok = constant.Compare(constant.ToFloat(b), token.EQL, constant.ToFloat(c.f))
-					}
-					if a != nil && b != nil && c.t.Kind() == constant.String && a.Kind() == constant.String && b.Kind() == constant.String {
-						ok = constant.StringVal(a) == constant.StringVal(c.t) && constant.StringVal(b) == constant.StringVal(c.f)
-					}
-				}
-			}
-		}
-		r.Check(ok, "R01.3", "boolDatum."+c.meth, fd.Pos(), c.descr, "conversion of a boolean is not "+c.descr)
-	}
-	// numDatum.Literal special cases
-	{
-		m := w.Method("xpath", "numDatum", "Literal")
-		fd, p := w.FuncDecl(m)
-		numField := w.Field("xpath", "numDatum", "num")
-		got := map[string]string{}
-		ast.Inspect(fd.Body, func(n ast.Node) bool {
-			cc, ok := n.(*ast.CaseClause)
-			if !ok || len(cc.List) != 1 {
-				return true
-			}
-			rets := returnsIn(cc)
-			if len(rets) != 1 {
-				return true
-			}
-			s, ok := ConstStr(p, rets[0].Results[0])
-			if !ok {
-				return true
-			}
-			cond := ast.Unparen(cc.List[0])
-			if be, isB := cond.(*ast.BinaryExpr); isB && be.Op == token.EQL && fieldOfSel(p, be.X) == numField {
-				if v := ConstOf(p, be.Y); v != nil && constant.Sign(v) == 0 {
-					got["zero"] = s
-				}
-			}
-			if ce, isC := cond.(*ast.CallExpr); isC && calleeOf(p, ce) != nil && calleeOf(p, ce).FullName() == "math.IsInf" && fieldOfSel(p, ce.Args[0]) == numField {
-				if v, ok := ConstInt(p, ce.Args[1]); ok {
-					if v > 0 {
-						got["+inf"] = s
-					} else if v < 0 {
-						got["-inf"] = s
-					}
-				}
-			}
-			return true
-		})
-		ok := got["zero"] == "0" && got["+inf"] == "Infinity" && got["-inf"] == "-Infinity"
-		r.Check(ok, "R01.3", "numDatum.Literal special cases", fd.Pos(), "±0→\"0\", +∞→\"Infinity\", −∞→\"-Infinity\"", fmt.Sprintf("string(number) special cases are %v", got))
-	}
+	c01ConversionsSSA(w, r)
 	// round: floor(x), plus one when the fraction is at least one half (ties towards +∞).
 	// floor(x + 0.5) is NOT accepted: x + 0.5 rounds before the floor (0.49999999999999994 → 1,
 	// odd integers above 2^52 move to the next even one).
